@@ -88,6 +88,12 @@ def Tree.build (D H bs : Nat) (mode : Bool) (leafIdx : List Nat) : Tree :=
 def Tree.stored (t : Tree) : List (Nat × Nat) :=
   t.pgroups.flatMap fun g => g.flatMap fun l => l.parts.map fun p => (l.idx, p)
 
+/-- `TbfBlockSizeFinder::Estimate` / `EstimateTsm`: the block size used when none is given — the number of distinct
+    occupied leaves (of both particle sets together in target/source mode) divided by twice the number of hardware
+    threads, and at least 1 -/
+def autoBlockSize (leafIdx : List Nat) (threads : Nat) : Nat :=
+  max 1 (leafIdx.eraseDups.length / (threads * 2))
+
 /-- `out[index] = value` for every pair, in order, into an array of `n` default entries -/
 def scatterByIndex {α : Type} (n : Nat) (dflt : α) (xs : List (Nat × α)) : List α :=
   (xs.foldl (fun (a : Array α) (x : Nat × α) => a.setIfInBounds x.1 x.2) (Array.replicate n dflt)).toList
